@@ -33,6 +33,9 @@ CHECKS = {
  "C10": dict(cat="fault_enumeration", tech="fault injection on generated valid calls: every fault kind (missing/extra/non-Tensor argument, wrong size of one dimension slot, wrong order, flipped mode, permuted ordering, wrong name, positional) x both entry points, with a spy replacing the compiled function pointer",
    text="For each Hypothesis-generated valid call whose kernel exists, every fault kind is injected in turn through evaluate() and tensor_method()(); the call must raise one of the documented exception types and the spy standing in for the compiled kernel must not be entered; the unmutated call must reach the spy exactly once.",
    note="Trusted: the spy sits exactly where TensorMethod calls the function pointer (self._evaluate).", ref="DESIGN.md §3 C10"),
+ "C11": dict(cat="exploration", tech="bounded-exhaustive enumeration of operand format pairs x operators plus Hypothesis-generated operands (unequal dimensions, scalars of each Python type, wrong orders for @) against an exact-rational element-wise/matrix reference; results decoded from raw arrays in a disposable native worker",
+   text="Every enumerated/generated operator call must return the tensor ordinary arithmetic defines (right dimensions, every coordinate), raise ValueError exactly when the shapes are incompatible, or refuse with NoKernelFoundError; for natural orderings the result format must follow the documented rule.",
+   note="Trusted: the rational reference (30 lines) and the raw-array decoder.", ref="DESIGN.md §3 C11"),
 }
 def main():
     checks = []
